@@ -97,7 +97,7 @@ MUTANTS = [
     dict(id="window-name-bypasses-uniquify", module=_T, old="					Vector(expand_to_rows(gm), name=uniquify(sanitize(col, \"max\")))",
          new="					Vector(expand_to_rows(gm), name=sanitize(col, \"max\"))", rules=["b.outputs", "d.same-aggregators"]),
     dict(id="window-stdev-one-pass", module=_T,
-         old="					mean_val = sum(clean) / n\n					return (sum((v - mean_val)**2 for v in clean) / (n - 1)) ** 0.5",
+         old="					mean_val = sum(clean) / n\n					return (sum((v - mean_val) * (v - mean_val) for v in clean) / (n - 1)) ** 0.5",
          new="					s1 = sum(clean)\n					s2 = sum(v * v for v in clean)\n					return (max(s2 - s1 * s1 / n, 0) / (n - 1)) ** 0.5",
          rules=["d.same-aggregators"]),
     dict(id="window-uniquify-counter", module=_T,
